@@ -133,9 +133,10 @@ type lcSchedResult struct {
 }
 
 type lcResult struct {
-	Mode    string          `json:"mode"`
-	Results []lcSchedResult `json:"results"`
-	Samples []string        `json:"samples"`
+	Goroutines int             `json:"goroutines_end"`
+	Mode       string          `json:"mode"`
+	Results    []lcSchedResult `json:"results"`
+	Samples    []string        `json:"samples"`
 }
 
 var lcSeq int64
@@ -405,6 +406,7 @@ type lcWorld struct {
 	prPtr     string
 	cbClosed  bool
 	flStable  int
+	extra     []*Stream     // streams registered late through a staged window
 	lateGot   int           // streams handed to OnNewStream so far
 	nsEntered int32         // the event loop is inside OnNewStream of the first late stream
 	nsRelease chan struct{} // closed by NsRelease
@@ -1549,6 +1551,15 @@ func (w *lcWorld) laterCalls(step int) {
 			return ""
 		})
 	}
+	w.mu.Lock()
+	extra := append([]*Stream(nil), w.extra...)
+	w.mu.Unlock()
+	for _, st := range extra {
+		if state := streamState(atomic.LoadUint32(&st.state)); state != streamClosed || !lcChanClosed(st.closeNotifyCh) {
+			w.violate("stream-left-open", fmt.Sprintf("stream id %d, registered by an OpenStream that overlapped Session.Close, after the teardown: state %d (1 = closed), close notification delivered: %v",
+				st.id, state, lcChanClosed(st.closeNotifyCh)), step)
+		}
+	}
 	run("Session.Close again", func() string {
 		if err := w.sv.Close(); err != nil {
 			return "returned " + err.Error()
@@ -2135,6 +2146,39 @@ func lcRunSchedule(sc *lcSchedule, mode, dir string, known map[string]bool) (res
 // staged interleavings inside Session.Close (gate mode, needs Session.Close instrumented)
 func (w *lcWorld) runGate() {
 	switch w.sc.Gate {
+	case "open-register-after-close":
+		// client window of "a stream appears between Close() and the teardown lambda": OpenStream has passed its closed check
+		// and is parked before it registers the stream; Close() runs to its end; OpenStream goes on and registers
+		g := vsGateArm("Session.OpenStream:AddUint32", 1)
+		ch := make(chan *Stream, 1)
+		go func() {
+			st, _ := w.sv.OpenStream()
+			ch <- st
+		}()
+		if !g.waitHit(lcWait) {
+			g.releaseGate()
+			w.res.Harness = "gate Session.OpenStream:AddUint32 not reached"
+			return
+		}
+		if err := w.sv.Close(); err != nil {
+			w.violate("close-not-idempotent", "Session.Close returned "+err.Error(), 0)
+		}
+		g.releaseGate()
+		select {
+		case st := <-ch:
+			if st == nil {
+				w.res.Harness = "OpenStream returned no stream: window not realised"
+				return
+			}
+			w.mu.Lock()
+			w.extra = append(w.extra, st)
+			w.mu.Unlock()
+		case <-time.After(lcWait):
+			w.violate("hang", "OpenStream released after Close() does not return", 0)
+			return
+		}
+		w.res.Steps = 3
+		w.res.Conforming = true
 	case "open-in-close-window":
 		// park the closer after it has won the CAS on `shutdown` and before it stores shutdownErr
 		g := vsGateArm("Session.Close:LoadUint32", 1) // the atomic load in the log line right after the CAS
@@ -2261,6 +2305,7 @@ func TestVS_Lifecycle(t *testing.T) {
 	if prog != nil {
 		prog.Close()
 	}
+	out.Goroutines = runtime.NumGoroutine()
 	ob, _ := json.Marshal(out)
 	if err := os.WriteFile(os.Getenv("VS_OUT"), ob, 0644); err != nil {
 		t.Fatal(err)
